@@ -7,6 +7,7 @@ use toodee::{TooDee, TooDeeOps};
 
 use super::array_bfs::{check_state, materialize};
 use super::elem::Elem;
+use super::seqx::{enc_seq, ideal_step, Call, Term, Tok, TERMS};
 use crate::engine::ledger::{self, Tracked};
 use crate::engine::util::{shapes, Model};
 use crate::engine::{guarded, Ctx, Profile, Prop, Tier};
@@ -24,14 +25,22 @@ struct Trace {
     yields: Vec<Option<(u32, Option<u64>)>>,
     lens: Vec<usize>,
     hints: Vec<(usize, Option<usize>)>,
+    /// what the terminal produced: count, or the items it visited in order
+    term_count: Option<usize>,
+    term_items: Vec<(u32, Option<u64>)>,
     pop_none: bool,
 }
 
-fn drive<E: Elem, D: DoubleEndedIterator<Item = E> + ExactSizeIterator>(mut d: D, seq: &[bool], tr: &mut Trace, held: &mut Vec<E>) {
+fn drive<E: Elem, D: DoubleEndedIterator<Item = E> + ExactSizeIterator>(mut d: D, seq: &[Call], term: Term, tr: &mut Trace, held: &mut Vec<E>) {
     tr.lens.push(d.len());
     tr.hints.push(d.size_hint());
-    for &front in seq {
-        let e = if front { d.next() } else { d.next_back() };
+    for call in seq {
+        let e = match call {
+            Call::Next => d.next(),
+            Call::NextBack => d.next_back(),
+            Call::Nth(n) => d.nth(*n),
+            Call::NthBack(n) => d.nth_back(*n),
+        };
         tr.yields.push(e.as_ref().map(|e| (e.label(), e.ident())));
         if let Some(e) = e {
             held.push(e);
@@ -39,7 +48,78 @@ fn drive<E: Elem, D: DoubleEndedIterator<Item = E> + ExactSizeIterator>(mut d: D
         tr.lens.push(d.len());
         tr.hints.push(d.size_hint());
     }
-    drop(d);
+    let mut visit = |e: E, tr: &mut Trace, held: &mut Vec<E>| {
+        tr.term_items.push((e.label(), e.ident()));
+        held.push(e);
+    };
+    match term {
+        Term::None => drop(d),
+        Term::Count => tr.term_count = Some(d.count()),
+        Term::Last => {
+            if let Some(e) = d.last() {
+                visit(e, tr, held);
+            }
+        }
+        Term::Fold => d.fold((), |_, e| visit(e, tr, held)),
+        Term::ForEach => d.for_each(|e| visit(e, tr, held)),
+        Term::Rfold => d.rfold((), |_, e| visit(e, tr, held)),
+        Term::RevThenFwd => {
+            if let Some(e) = d.by_ref().rev().next() {
+                visit(e, tr, held);
+            }
+            for e in d {
+                visit(e, tr, held);
+            }
+        }
+    }
+}
+
+/// The call sequences explored for a drain over a line of `len` elements:
+/// (a) every sequence over {next, next_back} of length 0..=len+1 (all interleavings, one call past
+/// exhaustion); (b) every sequence of length <= depth over the extended alphabet
+/// {next, next_back, nth(1), nth_back(1), nth(2), nth_back(len)}, each prefix closed by every terminal.
+fn drain_jobs(len: usize, depth: usize) -> Vec<(Vec<Call>, Term)> {
+    let mut out: Vec<(Vec<Call>, Term)> = Vec::new();
+    let mut frontier: Vec<Vec<Call>> = vec![Vec::new()];
+    out.push((Vec::new(), Term::None));
+    for _ in 0..len + 1 {
+        let mut next = Vec::new();
+        for s in &frontier {
+            for c in [Call::Next, Call::NextBack] {
+                let mut t = s.clone();
+                t.push(c);
+                next.push(t);
+            }
+        }
+        out.extend(next.iter().cloned().map(|s| (s, Term::None)));
+        frontier = next;
+    }
+    let alpha = [Call::Next, Call::NextBack, Call::Nth(1), Call::NthBack(1), Call::Nth(2), Call::NthBack(len)];
+    let mut frontier: Vec<Vec<Call>> = vec![Vec::new()];
+    for t in TERMS {
+        out.push((Vec::new(), t));
+    }
+    for _ in 0..depth {
+        let mut next = Vec::new();
+        for s in &frontier {
+            for c in alpha {
+                let mut t = s.clone();
+                t.push(c);
+                next.push(t);
+            }
+        }
+        for s in &next {
+            let simple = s.iter().all(|c| matches!(c, Call::Next | Call::NextBack));
+            if !(simple && s.len() <= len + 1) {
+                out.push((s.clone(), Term::None));
+            }
+            for t in TERMS {
+                out.push((s.clone(), t));
+            }
+        }
+        frontier = next;
+    }
+    out
 }
 
 fn run_shape<E: Elem>(c: usize, r: usize, ctx: &mut Ctx) {
@@ -51,28 +131,14 @@ fn run_shape<E: Elem>(c: usize, r: usize, ctx: &mut Ctx) {
         let indices: Vec<usize> = if pop { vec![dim.wrapping_sub(1)] } else { (0..=dim).collect() };
         for &i in &indices {
             let in_range = i < dim;
-            // all sequences of length <= line_len + 1 (for rejected calls only the empty sequence)
-            let max_len = if in_range { line_len + 1 } else { 0 };
-            let mut seqs: Vec<Vec<bool>> = vec![Vec::new()];
-            let mut frontier: Vec<Vec<bool>> = vec![Vec::new()];
-            for _ in 0..max_len {
-                let mut next = Vec::new();
-                for s in &frontier {
-                    for b in [true, false] {
-                        let mut t = s.clone();
-                        t.push(b);
-                        next.push(t);
-                    }
-                }
-                seqs.extend(next.iter().cloned());
-                frontier = next;
-            }
+            let depth = if ctx.tier == Tier::Quick { 3 } else { 4 };
+            let jobs: Vec<(Vec<Call>, Term)> = if in_range { drain_jobs(line_len, depth) } else { vec![(Vec::new(), Term::None)] };
             for spare in [false, true] {
-                for seq in &seqs {
+                for (seq, term) in &jobs {
+                    let term = *term;
                     ctx.case(
                         || {
-                            let s: String = seq.iter().map(|b| if *b { 'f' } else { 'b' }).collect();
-                            format!("TooDee<{}> {}x{} {} {}({}) then drain calls [{}] (f=next, b=next_back), drop", E::NAME, c, r, if spare { "spare" } else { "exact" }, op, if pop { String::new() } else { i.to_string() }, s)
+                            format!("TooDee<{}> {}x{} {} {}({}) then drain calls [{}], drop", E::NAME, c, r, if spare { "spare" } else { "exact" }, op, if pop { String::new() } else { i.to_string() }, enc_seq(seq, term))
                         },
                         |cs| {
                             let mut t: TooDee<E> = materialize(c, r, &labels, spare);
@@ -82,18 +148,18 @@ fn run_shape<E: Elem>(c: usize, r: usize, ctx: &mut Ctx) {
                             let mut tr = Trace::default();
                             let mut held: Vec<E> = Vec::new();
                             let res = guarded(|| match (row, pop) {
-                                (true, false) => drive(t.remove_row(i), seq, &mut tr, &mut held),
-                                (false, false) => drive(t.remove_col(i), seq, &mut tr, &mut held),
+                                (true, false) => drive(t.remove_row(i), seq, term, &mut tr, &mut held),
+                                (false, false) => drive(t.remove_col(i), seq, term, &mut tr, &mut held),
                                 (true, true) => match t.pop_row() {
-                                    Some(d) => drive(d, seq, &mut tr, &mut held),
+                                    Some(d) => drive(d, seq, term, &mut tr, &mut held),
                                     None => tr.pop_none = true,
                                 },
                                 (false, true) => match t.pop_col() {
-                                    Some(d) => drive(d, seq, &mut tr, &mut held),
+                                    Some(d) => drive(d, seq, term, &mut tr, &mut held),
                                     None => tr.pop_none = true,
                                 },
                             });
-                            cs.transitions = seq.len() as u64 + 1;
+                            cs.transitions = seq.len() as u64 + 1 + if term == Term::None { 0 } else { 1 };
                             cs.traces = 1;
                             if !in_range {
                                 // rejected: must panic (or None for pop) and leave the array untouched
@@ -120,7 +186,7 @@ fn run_shape<E: Elem>(c: usize, r: usize, ctx: &mut Ctx) {
                                 }
                                 return;
                             }
-                            cs.nontrivial((E::NAME, c, r, op, i, spare, seq));
+                            cs.nontrivial((E::NAME, c, r, op, i, spare, seq, term));
                             cs.outcome("removed");
                             if let Err(e) = &res {
                                 cs.fail("remove:panics-on-valid", format!("valid removal panicked: {}", e));
@@ -133,14 +199,36 @@ fn run_shape<E: Elem>(c: usize, r: usize, ctx: &mut Ctx) {
                             // ideal sequence
                             let line: Vec<u32> = if row { m.remove_row(i) } else { m.remove_col(i) };
                             let idline: Vec<Option<u64>> = if row { idm.remove_row(i) } else { idm.remove_col(i) };
-                            let mut ideal: VecDeque<(u32, Option<u64>)> = line.iter().copied().zip(idline.iter().copied()).collect();
+                            // the ideal sequence, encoded for seqx::ideal_step as (position in the line, 0)
+                            let pairs: Vec<(u32, Option<u64>)> = line.iter().copied().zip(idline.iter().copied()).collect();
+                            let mut ideal: VecDeque<Tok> = (0..pairs.len()).map(|k| (k, 0)).collect();
                             let mut exp_yields = Vec::new();
                             let mut exp_lens = vec![ideal.len()];
-                            for &front in seq {
-                                exp_yields.push(if front { ideal.pop_front() } else { ideal.pop_back() });
+                            for call in seq.iter() {
+                                exp_yields.push(ideal_step(&mut ideal, *call).map(|t| pairs[t.0]));
                                 exp_lens.push(ideal.len());
                             }
-                            cs.state((E::NAME, c, r, op, i, exp_lens.last().copied(), seq.iter().filter(|b| **b).count()));
+                            cs.state((E::NAME, c, r, op, i, ideal.len(), ideal.front().map(|t| t.0)));
+                            // terminal
+                            let rest: Vec<(u32, Option<u64>)> = ideal.iter().map(|t| pairs[t.0]).collect();
+                            let (exp_count, exp_items): (Option<usize>, Vec<(u32, Option<u64>)>) = match term {
+                                Term::None => (None, Vec::new()),
+                                Term::Count => (Some(rest.len()), Vec::new()),
+                                Term::Last => (None, rest.last().copied().into_iter().collect()),
+                                Term::Fold | Term::ForEach => (None, rest.clone()),
+                                Term::Rfold => (None, rest.iter().rev().copied().collect()),
+                                Term::RevThenFwd => {
+                                    let mut v: Vec<(u32, Option<u64>)> = Vec::new();
+                                    if let Some(l) = rest.last() {
+                                        v.push(*l);
+                                        v.extend(rest[..rest.len() - 1].iter().copied());
+                                    }
+                                    (None, v)
+                                }
+                            };
+                            if tr.term_count != exp_count || tr.term_items != exp_items {
+                                cs.fail("drain:terminal", format!("{:?} gave count {:?} items {:?}, expected {:?} / {:?} (label, id)", term, tr.term_count, tr.term_items, exp_count, exp_items));
+                            }
                             if tr.yields != exp_yields {
                                 cs.fail("drain:items", format!("drain yielded {:?}, the ideal sequence gives {:?} (label, id)", tr.yields, exp_yields));
                             }
@@ -216,8 +304,12 @@ impl Prop for C07P {
             _ => run_shape::<Tracked>(c, r, ctx),
         }
     }
+    fn page_guard(&self, tier: Tier, profile: Profile) -> bool {
+        let _ = (tier, profile);
+        true
+    }
     fn rule(&self) -> String {
-        "every shape (0..=N)^2 x {remove_row(i), remove_col(i) : i in 0..=dim} + pop_row + pop_col (also on the empty array) x element type {u32, Tracked} x {exact, spare} capacity x EVERY sequence over {next, next_back} of length 0..=len+1 (all interleavings, including one call past exhaustion), with len() and size_hint() observed after every call, then the drain is dropped. \
+        "every shape (0..=N)^2 x {remove_row(i), remove_col(i) : i in 0..=dim} + pop_row + pop_col (also on the empty array) x element type {u32, Tracked} x {exact, spare} capacity x EVERY sequence over {next, next_back} of length 0..=len+1 (all interleavings, including one call past exhaustion) plus every sequence up to depth 3 (thorough: 4) over the extended alphabet {next, next_back, nth(1), nth_back(1), nth(2), nth_back(len)} with every prefix closed by count / last / fold / rfold / for_each / rev-then-forward (the adaptors skip, step_by and rev are built on these), with len() and size_hint() observed after every call, then the drain is dropped. \
          Oracle: each call's result equals the ideal double-ended sequence of the removed line (by label and by element identity); len()/size_hint() exact at every step; after the drop the array equals the model without that line (same elements, same relative positions), (0,0) if it was the last line; ledger: yielded elements stay alive while held, the rest of the line is dropped exactly once, nothing else; out-of-range index panics and leaves the array untouched; pop on empty returns None; guard allocator clean. \
          states = distinct (shape, op, index, front/back cursor) positions of the ideal sequence reached; transitions = drain calls; traces_validated_against_impl = drain lifetimes executed on the real code."
             .into()
